@@ -78,9 +78,9 @@ CaseLog* g_budgetLog = 0;
 void (*g_hookOverride)(int, unsigned long, unsigned long) = 0;
 
 void hookReset() {
-    unsigned long ml = g_hook.maxLoopEntries; unsigned long mr = g_hook.maxReads, mf = g_hook.maxReadsAfterFail, ma = g_hook.maxAllocBytes, ms = g_hook.maxSingleAlloc; bool on = g_hook.budgetOn;
+    unsigned long hm = g_hook.hardMult; unsigned long ml = g_hook.maxLoopEntries; unsigned long mr = g_hook.maxReads, mf = g_hook.maxReadsAfterFail, ma = g_hook.maxAllocBytes, ms = g_hook.maxSingleAlloc; bool on = g_hook.budgetOn;
     memset(&g_hook, 0, sizeof g_hook);
-    g_hook.maxLoopEntries = ml; g_hook.maxReads = mr; g_hook.maxReadsAfterFail = mf; g_hook.maxAllocBytes = ma; g_hook.maxSingleAlloc = ms; g_hook.budgetOn = on;
+    g_hook.hardMult = hm; g_hook.maxLoopEntries = ml; g_hook.maxReads = mr; g_hook.maxReadsAfterFail = mf; g_hook.maxAllocBytes = ma; g_hook.maxSingleAlloc = ms; g_hook.budgetOn = on;
 }
 
 static const char* sectionName(int s) {
@@ -92,6 +92,14 @@ static const char* sectionName(int s) {
 void budgetStop(const char* which) {
     static bool inStop = false;
     if (inStop) _exit(77);
+    if (g_hook.hardMult > 1 && !g_hook.softHit) {
+        // soft stop: record it and let the load go on under budgets multiplied by hardMult
+        g_hook.softHit = true;
+        if (g_budgetLog && g_budgetLog->f) { fprintf(g_budgetLog->f, "BUDGET %s section=%s reads=%lu readsAfterFail=%lu allocBytes=%lu largest=%lu loops=%lu (soft)\n", which, sectionName(g_hook.section), g_hook.reads, g_hook.readsAfterFail, g_hook.allocBytes, g_hook.largestAlloc, g_hook.loopEntries); fflush(g_budgetLog->f); }
+        unsigned long m = g_hook.hardMult;
+        g_hook.maxReads *= m; g_hook.maxReadsAfterFail *= m * 64; g_hook.maxAllocBytes *= m; g_hook.maxSingleAlloc *= 4; g_hook.maxLoopEntries *= m;
+        return;
+    }
     inStop = true;
     g_hook.budgetOn = false;
     if (g_budgetLog && g_budgetLog->f) {
